@@ -56,6 +56,12 @@ add("C18", "jaxpr2smt",
     "one-step induction over iterations; previous best-so-far loss not NaN; noise oracle; rex.evo not covered (candidate generation/selection happen inside evosax)",
     "DESIGN.md §6 C18")
 
+add("C19", "jaxpr2smt",
+    "bounded symbolic execution of the jaxprs of the live rex.rl wrapper step functions around an inner environment whose results are uninterpreted functions; z3 decides the one-step laws (incl. non-linear real arithmetic for pooled moments); counterexamples replayed on the real wrappers with the oracle returning the model's values",
+    "One-step laws for every input/history summary: Environment.step == graph.step with the supervisor output set from the action; AutoReset (stored and fresh init); LogWrapper accounting invariant; Squash/Clip action laws (within bounds, mutual inverses modulo listed tanh/atanh axioms); running observation/return normalisation == exact pooled mean/variance merge. Bounded: batch 2(3), obs dim 1(2).",
+    "floats as reals; tanh/atanh/sqrt uninterpreted with the axioms named in each obligation; 'statistics of everything seen' claimed as the merge law relative to the wrappers' 1e-4 pseudo-count prior; fresh-init auto-reset passes through modulo the advanced rng",
+    "DESIGN.md §6 C19")
+
 def main():
     checks = []
     for pid in sorted(CHECKS):
